@@ -7,6 +7,9 @@
 //                 K.parse -> K.serialise; substituting a hard value (markup metacharacters, quotes, non-ASCII, astral,
 //                 TAB/LF/CR in attributes) there must then commute with the codec: same skeleton, the value intact
 //                 wherever the probe appeared, well-formed, and still a fixpoint if the probe document was one.
+//   c01.element   unknown payloads pass through unchanged: a generated element tree (namespaces switching back and forth
+//                 between ancestors, hard attribute values and text) copied by QXmppElement, or carried as an unknown child
+//                 of a message / presence / iq, is serialised as the same XML infoset it was parsed from.
 //   c01.objects   the same four oracles for every class of the object-first tables (harness/common/objgen_*.h): presence,
 //                 IQ payloads, nonzas ...; typed fields at their type bounds, every optional field present/absent.
 #include "msggen.h"
@@ -14,6 +17,10 @@
 #include "objgen_check.h"
 #include "codec_registry.h"
 #include "xmlmut.h"
+
+#include "QXmppElement.h"
+#include "QXmppIq.h"
+#include "QXmppPresence.h"
 
 using vh::Ctx;
 using vh::Tape;
@@ -239,6 +246,102 @@ VCHECK("c01.docs", 120)
     c.label(isAttr ? "position:attribute" : "position:text");
     if (gen::hasNonAlnum(hard))
         c.nontrivial(vh::fnvInt(uint64_t(seed), vh::fnvInt(uint64_t(pi) * 64 + gen::strClass(hard), vh::fnvInt(uint64_t(transparentFor)))));
+}
+
+// ---- c01.element: generic element pass-through
+// Domain (what QXmppElement documents / is built to keep): un-prefixed elements in default namespaces, un-prefixed attributes
+// with non-empty values, an element has either text or child elements (text of mixed content is concatenated), no comments,
+// processing instructions or CDATA distinction.
+static xm::XNode genTree(Tape &t, const QString &parentNs, int depth, bool &sawSwitchBack, QStringList ancestors)
+{
+    static const QStringList nsPool = { QStringLiteral("urn:example:verif:a"), QStringLiteral("urn:example:verif:b"), QStringLiteral("urn:example:verif:c"), QStringLiteral("jabber:client") };
+    static const QStringList names = { QStringLiteral("payload"), QStringLiteral("query"), QStringLiteral("item"), QStringLiteral("x"), QStringLiteral("message"), QStringLiteral("body") };
+    xm::XNode n;
+    n.isText = false;
+    // the payload element itself gets a name no stanza class interprets (QXmppMessage reads <body/>, <subject/>, ... by tag
+    // name alone); deeper levels also use message/body, as a forwarded stanza would
+    n.name = names[int(t.u(depth <= 1 ? 3 : uint32_t(names.size())))];
+    n.ns = (depth > 0 && t.b()) ? parentNs : t.pick(nsPool.toVector().toStdVector());
+    if (n.ns != parentNs && ancestors.contains(n.ns))
+        sawSwitchBack = true;
+    int na = int(t.u(3));
+    for (int i = 0; i < na; i++)
+        n.attrs.push_back({ QStringLiteral("a%1").arg(i), gen::str(t, gen::AttrSafe | gen::CtlWs, 12) });
+    if (depth >= 4 || t.prob(1, 3)) {
+        if (t.b()) {
+            xm::XNode tx;
+            tx.isText = true;
+            tx.text = gen::str(t, gen::TextSafe, 16);
+            n.kids.push_back(tx);
+        }
+    } else {
+        int nk = 1 + int(t.u(3));
+        ancestors << n.ns;
+        for (int i = 0; i < nk; i++)
+            n.kids.push_back(genTree(t, n.ns, depth + 1, sawSwitchBack, ancestors));
+    }
+    return n;
+}
+
+VCHECK("c01.element", 300)
+{
+    bool switchBack = false;
+    // carrier: 0 = QXmppElement itself, 1..3 = unknown child of message / presence / iq; the carrier declares jabber:client
+    // itself (as a stanza received from a stream does) or inherits it
+    const int carrier = int(t.u(4));
+    const bool declared = t.b();
+    const QString carrierNs = QStringLiteral("jabber:client");
+    xm::XNode tree = genTree(t, carrierNs, carrier == 0 ? 0 : 1, switchBack, carrier == 0 ? QStringList() : QStringList { carrierNs });
+    if (carrier != 0 && tree.ns == carrierNs)
+        tree.ns = QStringLiteral("urn:example:verif:a");   // the payload itself must be foreign to the stanza
+    QString inner;
+    xm::toXml(tree, carrierNs, inner);
+    static const char *open[] = { "", "<message%1 type='chat' id='m1'>", "<presence%1 id='p1'>", "<iq%1 type='set' id='i1'>" };
+    static const char *close[] = { "", "</message>", "</presence>", "</iq>" };
+    const QString doc = carrier == 0 ? inner : QString::fromLatin1(open[carrier]).arg(declared ? QStringLiteral(" xmlns='jabber:client'") : QString()) + inner + QString::fromLatin1(close[carrier]);
+    auto pin = xu::parseFragment(doc);
+    if (!pin.ok()) {
+        c.label("harness:generated-document-unparsable");
+        return;
+    }
+    c.sample([&] { return q(doc.left(300)); });
+    QByteArray out;
+    switch (carrier) {
+    case 0:
+        out = og::serWrapped(QXmppElement(pin.el));
+        break;
+    case 1: {
+        QXmppMessage m;
+        m.parse(pin.el);
+        out = xu::ser(m);
+        break;
+    }
+    case 2: {
+        QXmppPresence pr;
+        pr.parse(pin.el);
+        out = xu::ser(pr);
+        break;
+    }
+    default: {
+        QXmppIq iq;
+        iq.parse(pin.el);
+        out = xu::ser(iq);
+        break;
+    }
+    }
+    static const char *carrierName[] = { "QXmppElement", "QXmppMessage", "QXmppPresence", "QXmppIq" };
+    const std::string who = carrierName[carrier];
+    c.label("carrier:" + who);
+    if (switchBack)
+        c.label("namespace-switches-back-to-an-ancestor's");
+    c.nontrivial(vh::fnv(doc.toUtf8()));
+    QString werr;
+    c.require(xu::wellFormed(QString::fromUtf8(out), &werr), "c01.element " + who + " not-well-formed", [&] { return who + ": output not well-formed (" + q(werr) + ")\n in =" + q(doc) + "\n out=" + out.toStdString(); });
+    auto pout = xu::parseFragment(out);
+    QDomElement a = carrier == 0 ? pin.el : pin.el.firstChildElement(), b = carrier == 0 ? pout.el : pout.el.firstChildElement();
+    c.require(!b.isNull() && xu::canonical(a, false) == xu::canonical(b, false), "c01.element " + who + " payload-changed" + (switchBack ? " (namespace switch-back)" : ""), [&] {
+        return who + ": an unknown payload is not written back as the XML it was parsed from, first difference at " + q(b.isNull() ? QStringLiteral("(payload missing)") : xu::firstDiffPath(a, b)) + "\n in =" + q(doc) + "\n out=" + out.toStdString();
+    });
 }
 
 VCHECK("c01.objects", 500)
